@@ -45,7 +45,11 @@ func genC09(t *rapid.T, pair *[2]uint8) SeqCase {
 			if pair != nil {
 				nb = pair[1]
 			}
-			ops = append(ops, Op{K: opReBits, A: int(nb)})
+			rb := Op{K: opReBits, A: int(nb)}
+			if weighted(t, "rebitsfault", []int{4, 1}) == 1 {
+				rb.B = 1 // with a primary read fault during a first attempt
+			}
+			ops = append(ops, rb)
 		case 1, 2:
 			op := Op{K: opMismatch, A: w, B: int(sizeChoices[rapid.IntRange(0, len(sizeChoices)-1).Draw(t, "wrongsize")])}
 			// In a third of the refused opens the bit size differs as well: a
@@ -62,6 +66,7 @@ func genC09(t *rapid.T, pair *[2]uint8) SeqCase {
 }
 
 const c09Rule = "rapid-generated C01-style histories at a first index bit size (shared prefixes, removed keys, multi-file index), clean close, reopen with another bit size (translation), full read-back and iteration against the reference map, then more history under the new size; refused opens: reopen with another index / primary file-size limit (in a third of them also with another bit size) must fail with ErrIndexWrongFileSize / ErrPrimaryWrongFileSize (errors.As) and a later open with the original settings must show exactly the reference map; thorough tier additionally walks all 289 ordered pairs of 8..24 once; " +
+	"a fifth of the re-bucketings are preceded by an attempt during which the oldest primary file cannot be read (a directory stands in its place): the attempt may be refused, and whether it is or not, the re-bucketing made once the file is back must show exactly the reference map; " +
 	"non-trivial = a translation of >=6 keys of which >=2 share a bucket afterwards, from an index of >=2 files; distinct = distinct canonical JSON of the case. The crash clause is checked by the crash campaign of this check (see coverage.crash_*): each image is opened with the new and with the old bit size (a successful open must show every key), and an image that reads right with the old size is used further (one key updated, one removed, one added), closed and re-bucketed again, and must then equal the model."
 
 func c09Classes(c SeqCase, st SeqStats) []string {
@@ -71,6 +76,12 @@ func c09Classes(c SeqCase, st SeqStats) []string {
 	}
 	if st.Mismatches > 0 {
 		cl = append(cl, "refused-open")
+	}
+	if st.FaultyRebitsRefused > 0 {
+		cl = append(cl, "rebucketing-attempt-with-unreadable-primary-file:refused")
+	}
+	if st.FaultyRebitsAccepted > 0 {
+		cl = append(cl, "rebucketing-attempt-with-unreadable-primary-file:accepted")
 	}
 	if st.MismatchesWithBits > 0 {
 		cl = append(cl, "refused-open-with-other-bits")
